@@ -144,7 +144,11 @@ def minimise_task(prop, plan, rule, budget_s):
             progress = True
             while progress and time.time() < deadline:
                 progress = False
-                for cand in shrink(best):
+                try:
+                    cands = list(shrink(best))
+                except Exception:  # noqa: BLE001  a bug in a shrinker must not lose the violation
+                    cands = []
+                for cand in cands:
                     if time.time() >= deadline:
                         break
                     if fails(cand):
